@@ -7,6 +7,7 @@ import (
 	"fmt"
 	"io"
 	"net"
+	"os"
 	"strings"
 	"time"
 
@@ -734,6 +735,17 @@ func C14(args []string) {
 		return
 	}
 	scns := c14Scenarios(r.Thorough())
+	deepBound := 0
+	if v := os.Getenv("VERIF_DEEP_BOUND"); v != "" { // development aid: only the deep scenarios, to the given bound
+		fmt.Sscan(v, &deepBound)
+		var only []c14Scn
+		for _, sc := range scns {
+			if sc.Deep {
+				only = append(only, sc)
+			}
+		}
+		scns = only
+	}
 	maxBound := 1
 	if r.Thorough() {
 		maxBound = 2
@@ -759,6 +771,9 @@ func C14(args []string) {
 			// two (thorough three) deviations from the first Write on
 			e.FromMark, e.MaxExec = "connected", 60000
 			maxBound++
+			if deepBound > 0 {
+				maxBound, e.MaxExec = deepBound, 3000000
+			}
 		}
 		e.Check = func(choices []int, res *vs.Result) {
 			r.Evals.Add(1)
